@@ -1,8 +1,8 @@
-# sourced by check and setup.sh
+# sourced by check and setup.sh; VERIF_DIR defaults to the directory holding this file
+export VERIF_DIR=${VERIF_DIR:-$(cd "$(dirname "${BASH_SOURCE[0]}")" && pwd)}
 export GOFLAGS=-mod=mod GOPROXY=off GOSUMDB=off GOTOOLCHAIN=local
 export GOMODCACHE=${GOMODCACHE:-/root/go/pkg/mod}
-export GOCACHE=/verif/.cache/gocache
+export GOCACHE=${VERIF_GOCACHE:-/verif/.cache/gocache}
 export OCTOSQL_NO_TELEMETRY=1
-export VERIF_DIR=/verif
 export REPO_DIR=${REPO_DIR:-/repo}
-mkdir -p /verif/.cache/bin /verif/.cache/gocache
+mkdir -p $VERIF_DIR/.cache/bin $GOCACHE
